@@ -55,6 +55,11 @@ CHECKS = {
    text="Runtime monitoring of the real CLI: 10 (thorough 60) multi-controller / multi-file / multi-package projects x ~35-90 runs each; spec and routes bytes of every run are compared with the canonical-order reference; the evidence lists how many distinct orders were actually forced per site (from the hook trace) and how many distinct outputs were seen. Exploration of the order space, exhaustive only for sites with <=4 elements.",
    note="Assumes the three H1 sites capture the pipeline's iteration-order freedom; hook-free repetitions (Go's own map randomisation) are an independent net for anything else.",
    ref="DESIGN.md §5 C13, §4 H1"),
+ "C14": dict(
+   technique="process-outcome monitor: ~300 (thorough ~2500) child-process runs of the real CLI over four hostile input grammars x commands, classified by exit status, crash signatures in stderr, promised artifacts, watchdog, and the hook-H2 materialisation trace (re-entrancy / nesting-depth safety check)",
+   text="Runtime monitoring without a reference model: every run must end with exit 0 and its artifacts or exit 1 and a message. Inputs: 45 unsupported/unusual Go constructs (alone and combined), 72 malformed annotation lines, the 22 validator rule names x 15 malformed values x 16 field types plus raw random tags, every leaf of the configuration replaced by 12 type-confused values or removed, raw malformed config files, template overrides, odd command lines. The thorough tier runs half of the validator-tag grammar against a -race build (checkptr). Exploration of the input grammars; 'never loops' is restated as: terminates under a 150 s watchdog (re-run alone with 400 s before it counts) and no declaration is materialised re-entrantly.",
+   note="No oracle beyond process outcomes; hangs are only reported after a second watchdog hit in isolation.",
+   ref="DESIGN.md §5 C14, §4 H2"),
  "C15": dict(
    technique="reference-model monitor: brute-force overlap oracle over every route list (bounded-exhaustive + random, permutation re-runs) observing paths.FindConflicts in-process",
    text="Runtime monitoring of the real FindConflicts: every ordered list of <=3 (thorough <=4) entries over 42 route entries plus thousands of large duplicate-heavy random lists are executed and each reported conflict / each unflagged entry is judged by a 12-line overlap model transcribed from the statement; entry identity is tracked by pointer so duplicates are distinguishable. Exploration, not proof: the verdict covers the enumerated and sampled lists only.",
